@@ -1,5 +1,7 @@
 /* IPC test-bed: director + clients.  --mode c02 | c04 | c06 | c03 | c05 */
 #include "ipcbed.h"
+#include <sched.h>
+#include <sys/mount.h>
 #include <signal.h>
 #include <dirent.h>
 #include <sys/resource.h>
@@ -281,10 +283,20 @@ static void case_c02(long kase)
 
 #include "ipcbed_extra.inc"
 
+/* a private /dev/shm per harness process: files of killed servers of other runs (and recycled pids) cannot be mistaken
+ * for residue of this one.  Without the privilege the audits fall back to comparing against their own baseline. */
+static int private_shm;
+static void setup_namespace(void)
+{
+	if (unshare(CLONE_NEWNS) == 0 && mount("none", "/", NULL, MS_REC | MS_PRIVATE, NULL) == 0 &&
+	    mount("tmpfs", "/dev/shm", "tmpfs", 0, "size=4g") == 0) private_shm = 1;
+}
+
 int main(int argc, char **argv)
 {
 	vp_init(argc, argv);
 	signal(SIGPIPE, SIG_IGN);
+	setup_namespace();
 	snprintf(basedir, sizeof basedir, "/tmp/vp-ipc-%d", (int)getpid()); mkdir(basedir, 0700);
 	const char *m = vp_arg("--mode", "c02");
 	for (long k = vp.case_from; k < vp.case_to; k++) {
@@ -293,7 +305,7 @@ int main(int argc, char **argv)
 		else extra_case(m, k);
 	}
 	rm_rf(basedir);
-	vp_count("server_runs", n_server_runs); vp_count("connections", n_conns); vp_count("requests_checked", n_msgs_checked); vp_count("responses_checked", n_resp_checked);
+	vp_count("private_dev_shm", private_shm); vp_count("server_runs", n_server_runs); vp_count("connections", n_conns); vp_count("requests_checked", n_msgs_checked); vp_count("responses_checked", n_resp_checked);
 	vp_count("events_checked", n_events_checked); vp_count("sends_refused_and_retried", n_refused_sends); vp_count("sends_refused_by_flow_control", n_fc_eagain);
 	vp_count("oversize_sends_refused", n_emsgsize); vp_count("poll_probes", n_poll_probes); vp_count("event_sends_refused_at_server", n_event_eagain);
 	extra_counts();
